@@ -16,6 +16,7 @@ package sched
 
 import (
 	"fmt"
+	"os"
 	"reflect"
 	"runtime"
 	"runtime/debug"
@@ -118,13 +119,15 @@ type Exec struct {
 	timerSeq    int
 	timerBudget int
 
-	resets  []func()
-	held    map[interface{}]func()
-	objIDs  map[interface{}]int
-	closed  map[uintptr]interface{}
-	tracing bool
-	Trace   []Step
-	Diverge string
+	resets   []func()
+	held     map[interface{}]func()
+	objIDs   map[interface{}]int
+	closed   map[uintptr]interface{}
+	tracing  bool
+	post     bool
+	accesses map[string]int
+	Trace    []Step
+	Diverge  string
 	// Unsupported is set when the code under test used a construct the runtime does not model.
 	Unsupported string
 
@@ -148,7 +151,14 @@ type Options struct {
 	Trace       bool
 	// AllowDeadlock: do not record a failure when no thread can run before the main thread returned.
 	AllowDeadlock bool
+	// PostPoints adds a scheduling point right after every releasing operation (unlock, channel send and
+	// close, WaitGroup.Done, atomic store/swap/CAS/add): a thread can then be preempted between publishing
+	// something and the plain writes that follow, which points in front of operations alone cannot do.
+	PostPoints bool
 }
+
+// DebugLabels makes scheduling choices carry the list of enabled threads.
+var DebugLabels = os.Getenv("VERIF_DEBUG_DIVERGE") != ""
 
 var nextStart []func()
 
@@ -176,6 +186,8 @@ func RunOnce(prefix []int, o Options, body func()) *Exec {
 		objIDs:      make(map[interface{}]int),
 		closed:      make(map[uintptr]interface{}),
 		tracing:     o.Trace,
+		post:        o.PostPoints,
+		accesses:    map[string]int{},
 		Data:        make(map[string]interface{}),
 	}
 	E = e
@@ -394,7 +406,13 @@ func (e *Exec) pick(cur *thread) *thread {
 		if curEnabled {
 			cls = ClsSched
 		}
-		k := e.choose(cls, len(en), true, "")
+		label := ""
+		if DebugLabels {
+			for _, t := range en {
+				label += fmt.Sprintf("%s:%s(%s) ", t.name, t.kind, e.objName(t.obj))
+			}
+		}
+		k := e.choose(cls, len(en), true, label)
 		return en[k]
 	}
 }
@@ -893,7 +911,18 @@ func SendV[T any](ch chan<- T, v T) {
 	}
 	point("send", ch, func() bool { return sendReady(ch) })
 	ch <- v
+	Post("send", nil)
 }
+
+// Post is the optional scheduling point right after a releasing operation (see Options.PostPoints).
+func Post(kind string, obj interface{}) {
+	if e := E; e != nil && e.post && !e.aborting && !e.ended {
+		point("after-"+kind, obj, nil)
+	}
+}
+
+// PostSend follows a rewritten `ch <- v` statement.
+func PostSend() { Post("send", nil) }
 
 // SendPt is the scheduling point in front of a real `ch <- v`.
 func SendPt[T any](ch chan<- T) {
@@ -912,6 +941,7 @@ func CloseCh[T any](ch chan<- T) {
 	point("close", ch, nil)
 	close(ch) // panics for real on double close
 	markClosed(chanPtr(ch), ch)
+	Post("close", nil)
 }
 
 // LenCh is `len(ch)` (a visible read of the channel).
@@ -1066,6 +1096,26 @@ func sortKeys[K comparable](keys []K) {
 		}
 		sort.SliceStable(keys, func(i, j int) bool { return e.objID(keys[i]) < e.objID(keys[j]) })
 	}
+}
+
+// Access is the scheduling point in front of a statement that reads or writes a field the code shares
+// between threads without synchronisation (see rewrite.RacyFields).
+func Access(name string) {
+	if e := E; e != nil {
+		if !e.aborting && !e.ended {
+			e.accesses[name]++
+		}
+		point("access", name, nil)
+	}
+}
+
+// AccessCount reports how many times a thread has arrived at an access point of name in this execution (a
+// harness can wait for the k-th arrival and act while that thread is parked in front of its statement).
+func AccessCount(name string) int {
+	if e := E; e != nil {
+		return e.accesses[name]
+	}
+	return 0
 }
 
 // Touch assigns an identity to obj now (so later map iterations are ordered by creation).
